@@ -71,6 +71,12 @@ func (b *backoff) next(attempt int) time.Duration {
 	durf := minf * math.Pow(1.5, float64(attempt))
 	durf = durf + rand.Float64()*minf
 
+	// compare before converting: a float64 beyond the int64 range converts to
+	// an unspecified (in practice negative) Duration, which would skip the cap
+	if durf > float64(b.maxDelay) {
+		return b.maxDelay
+	}
+
 	delay := time.Duration(durf)
 
 	if delay > b.maxDelay {
